@@ -405,7 +405,10 @@ func RangeContributions(pk *gabikeys.PublicKey, idx int, sign int, a uint, k *bi
 	for i := range cs {
 		tm = mulmod(n, tm, PowSigned(cs[i], ds[i], n))
 	}
-	out := []*big.Int{tm}
+	// the statement (sign, factor, bound) and the commitments C_i come first (covered by the challenge since fix 9.2/C12)
+	out := []*big.Int{big.NewInt(int64(sign)), new(big.Int).SetUint64(uint64(a)), new(big.Int).Set(k)}
+	out = append(out, cs...)
+	out = append(out, tm)
 	for i := range cs {
 		out = append(out, mulmod(n, PowSigned(cs[i], negc, n), PowSigned(R, ds[i], n), PowSigned(pk.S, vs[i], n)))
 	}
